@@ -61,6 +61,15 @@ _unit_timeout = 120
 def _worker_init(pid, unit_timeout):
     global _engine, _unit_timeout
     _unit_timeout = unit_timeout
+    # one core per worker: baton passing between the real threads of a simulated run is ~6x cheaper
+    # when both ends of the hand-off share a core
+    try:
+        ident = multiprocessing.current_process()._identity
+        cpus = sorted(os.sched_getaffinity(0))
+        if ident and cpus:
+            os.sched_setaffinity(0, {cpus[(ident[0] - 1) % len(cpus)]})
+    except (AttributeError, OSError):
+        pass
     _engine = load_engine(pid)
     init = getattr(_engine, 'worker_init', None)
     if init:
@@ -163,15 +172,19 @@ def confirm_replay(pid, path, sig):
 
 # ---------------------------------------------------------------- selftest
 
-def selftest_digests(pid, tier, seed):
+def selftest_digests(pid, tier, seed, reverse=False):
     eng = load_engine(pid)
     init = getattr(eng, 'worker_init', None)
     if init:
         init()
-    out = []
-    for u in eng.selftest_units(tier, seed):
-        out.append(eng.run_unit(u)['digest'])
-    return out
+    units = list(enumerate(eng.selftest_units(tier, seed)))
+    if reverse:
+        # a different execution order inside this interpreter: digests must not depend on what ran before
+        units.reverse()
+    out = {}
+    for i, u in units:
+        out[i] = eng.run_unit(u)['digest']
+    return [out[i] for i in sorted(out)]
 
 
 def start_selftest(pid, tier, seed):
@@ -183,7 +196,7 @@ def start_selftest(pid, tier, seed):
         env['PYTHONHASHSEED'] = hs
         env['VERIF_NO_REEXEC'] = '1'
         procs.append(subprocess.Popen([PY, os.path.join(VERIF, 'check'), pid, '--selftest-digests',
-                                       '--tier', tier, '--seed', str(seed)],
+                                       '--tier', tier, '--seed', str(seed)] + (['--reverse'] if hs != '0' else []),
                                       stdout=subprocess.PIPE, stderr=subprocess.PIPE, env=env))
     return procs
 
@@ -203,8 +216,8 @@ def finish_selftest(procs, log):
     if res[0] != res[1]:
         diff = [i for i, (a, b) in enumerate(zip(res[0], res[1])) if a != b]
         raise HarnessError('determinism self-test failed: digests differ for selftest units %r' % diff)
-    log('selftest: %d units, digests equal under PYTHONHASHSEED=0 and 4242' % len(res[0]))
-    return {'units': len(res[0]), 'hashseeds': [0, 4242], 'equal': True}
+    log('selftest: %d units, digests equal under PYTHONHASHSEED=0 and 4242 (second interpreter ran them in reverse order)' % len(res[0]))
+    return {'units': len(res[0]), 'hashseeds': [0, 4242], 'second_interpreter_order': 'reversed', 'equal': True}
 
 
 # ---------------------------------------------------------------- main
@@ -218,6 +231,7 @@ def main(argv=None):
     ap.add_argument('--replay')
     ap.add_argument('--selftest-digests', action='store_true')
     ap.add_argument('--no-selftest', action='store_true')
+    ap.add_argument('--reverse', action='store_true')
     ap.add_argument('--budget', type=float, default=0, help='wall seconds after which no new unit is started')
     ap.add_argument('--scale', type=float, default=float(os.environ.get('VERIF_SCALE', '1') or 1),
                     help='multiplier on the number of runs')
@@ -234,7 +248,7 @@ def main(argv=None):
     if args.replay:
         return do_replay(pid, args.replay)
     if args.selftest_digests:
-        print('DIGESTS ' + json.dumps(selftest_digests(pid, args.tier, args.seed)))
+        print('DIGESTS ' + json.dumps(selftest_digests(pid, args.tier, args.seed, args.reverse)))
         return 0
 
     t0 = time.time()
